@@ -89,6 +89,16 @@ theorem C11_resolution_full_false : ¬ C11_resolution_full := fun h => by
   rw [C11_witness_1.1, C11_witness_1.2.1] at this
   exact absurd this (by decide)
 
+/-- `WITH cte1 AS (SELECT x FROM int1.t) SELECT * FROM cte1` with `default_namespace='proj'` (not a project):
+the reference to the CTE counts as a second integration and the query is not pushed down whole, although
+every real table is in `int1`.  `C11_decision` excludes it (`allResolveTo` fails for the CTE reference);
+with a project as default namespace the same query is pushed down. -/
+theorem C11_witness_2 :
+    checkSingle (mkCatalog ⟨some [.nm n!"int1", .nm n!"int2"], none, .none, some n!"proj"⟩) [n!"cte1"]
+      [.table [n!"cte1"], .table [n!"int1", n!"t"]] = none ∧
+    checkSingle (mkCatalog ⟨some [.nm n!"int1", .nm n!"int2"], none, .none, some n!"mindsdb"⟩) [n!"cte1"]
+      [.table [n!"cte1"], .table [n!"int1", n!"t"]] = some n!"int1" := by decide
+
 /-! non-vacuity: a nested, aliased, three-part-qualified query satisfies `okSel` and is not trivial -/
 
 /-- `select int1.t.x, a.y, (select max(INT1.t.x) from int1.s where s.id = a.id) from int1.t join int1.s as a` -/
